@@ -136,6 +136,25 @@ fn cursor_doc_score_varies(reader: &searchlite_core::api::IndexReader, base: &Va
   doc_score_varies(reader, base, big, &doc, &[walk_bits])
 }
 
+/// The rejected cursor is accepted by the SAME execution strategy under some other limit: whether the
+/// cursor document is "seen" (recomputed key == cursor key, i.e. identical score bits) depends on the
+/// request's limit, which is the request-dependent last-bit scoring again.
+fn cursor_acceptance_depends_on_limit(reader: &searchlite_core::api::IndexReader, base: &Value, big: usize, w: &paging::Walk) -> bool {
+  let Some(cur) = w.cursors.last() else { return false };
+  let (mut ok, mut err) = (0, 0);
+  for limit in [1usize, 2, 3, 4, 5, 6, 7, 8, big] {
+    let mut req = base.clone();
+    req["limit"] = json!(limit);
+    req["cursor"] = json!(cur);
+    match paging::call(reader, &req) {
+      Call::Ok(_) => ok += 1,
+      Call::Err(e) if e.contains("stale or invalid cursor") => err += 1,
+      _ => {}
+    }
+  }
+  ok > 0 && err > 0
+}
+
 /// Index of the first page whose ids are not the expected slice of the unpaged result.
 fn first_deviation(w: &paging::Walk, full: &[HitSig], page: usize) -> Option<usize> {
   let mut offset = 0usize;
@@ -166,7 +185,9 @@ fn jitter_at_first_deviation(reader: &searchlite_core::api::IndexReader, base: &
   cands.sort();
   cands.dedup();
   cands.iter().take(8).any(|d| {
-    let seen: Vec<u32> = full.iter().chain(near.iter()).filter(|h| &h.0 == d).map(|h| h.1).collect();
+    // every score this document was ever reported with: unpaged result + all pages of the walk
+    let all_pages: Vec<HitSig> = w.pages.iter().flat_map(paging::hit_sigs).collect();
+    let seen: Vec<u32> = full.iter().chain(all_pages.iter()).filter(|h| &h.0 == d).map(|h| h.1).collect();
     doc_score_varies(reader, base, big, d, &seen)
   })
 }
@@ -380,10 +401,16 @@ fn main() {
           let lossy = last_doc.map(|d| lossy_f64_sort_value(d, &sort)).unwrap_or(false);
           if lossy && stop.contains("stale or invalid cursor") {
             "walk-stopped:sort-cursor:f64-sort-value-does-not-survive-cursor-json-round-trip".to_string()
-          } else if stop.contains("stale or invalid cursor") && paging::sort_uses_score(&sort) && cursor_doc_score_varies(&reader, &base, big, &w) {
+          } else if stop.contains("stale or invalid cursor")
+            && paging::sort_uses_score(&sort)
+            && (cursor_doc_score_varies(&reader, &base, big, &w) || cursor_acceptance_depends_on_limit(&reader, &base, big, &w))
+          {
             // the cursor stores the score bits of its document, but the engine does not reproduce them:
             // the same document gets scores a few ULPs apart depending on limit / execution
             format!("walk-stopped:cursor-document-score-varies-by-ulps-between-requests:{ck}")
+          } else if exec.0 == "bmw" && stop.contains("stale or invalid cursor") && cursor_valid_under_bm25(&reader, &base, page, &w) {
+            // the unsound block-max pruning skipped the cursor document itself
+            format!("pruned-page-differs-from-exhaustive-page:{}:{ck}", exec.0)
           } else if exec.0 != "bm25" && stop.contains("stale or invalid cursor") && cursor_valid_under_bm25(&reader, &base, page, &w) {
             format!("pruned-execution-loses-cursor-document:{}:{ck}", exec.0)
           } else {
